@@ -148,6 +148,7 @@ type machine struct {
 	hdrBuf            []byte
 	cls               map[string]bool
 	aimed             bool
+	heldDone          bool
 }
 
 func (m *machine) open(t *rapid.T, ro bool, withDepth bool) {
@@ -645,6 +646,187 @@ func (m *machine) reopen(t *rapid.T) {
 	m.checkIterate(t)
 }
 
+// quickRead performs one complete read of address i through the given API and compares it with the model.
+// It touches no machine state besides reading m.in/m.objs, so it may run in goroutines (own buffers).
+func (m *machine) quickRead(i int, kind string) error {
+	o := m.objs[i]
+	want := m.in[i]
+	bad := func(err error) error {
+		if want {
+			return fmt.Errorf("%s(#%d): %v", kind, i, err)
+		}
+		if !notFound(err) {
+			return fmt.Errorf("%s(#%d) of an absent address: %v", kind, i, err)
+		}
+		return nil
+	}
+	switch kind {
+	case "Head":
+		h, err := m.tree.Head(o.Addr)
+		if err != nil || !want {
+			return bad(err)
+		}
+		if !bytes.Equal(h.Marshal(), o.Header) {
+			return fmt.Errorf("Head(#%d) returns a different header", i)
+		}
+	case "GetStream":
+		h, rd, err := m.tree.GetStream(o.Addr)
+		if err != nil || !want {
+			if rd != nil {
+				_ = rd.Close()
+			}
+			return bad(err)
+		}
+		pl, rerr := io.ReadAll(rd)
+		_ = rd.Close()
+		if rerr != nil || !bytes.Equal(pl, o.Object.Payload()) || !bytes.Equal(h.Marshal(), o.Header) {
+			return fmt.Errorf("GetStream(#%d): header/payload differ from the stored object (payload %d of %d bytes, first diff at %d, err %v)", i, len(pl), len(o.Object.Payload()), firstDiff(pl, o.Object.Payload()), rerr)
+		}
+	case "ReadHeader":
+		buf := make([]byte, 2*fsobj.HeaderBufferLen)
+		n, err := m.tree.ReadHeader(o.Addr, buf)
+		if err != nil || !want {
+			return bad(err)
+		}
+		if n > len(o.Plain) || n < o.HdrEnd || !bytes.Equal(buf[:n], o.Plain[:n]) {
+			return fmt.Errorf("ReadHeader(#%d): %d bytes that are not a header-covering prefix of the stored object", i, n)
+		}
+	case "Get":
+		g, err := m.tree.Get(o.Addr)
+		if err != nil || !want {
+			return bad(err)
+		}
+		if !bytes.Equal(g.Marshal(), o.Plain) {
+			return fmt.Errorf("Get(#%d) differs from the stored object", i)
+		}
+	}
+	return nil
+}
+
+// held is a payload/object stream that was opened but not yet consumed.
+type held struct {
+	i      int
+	api    string
+	rd     io.ReadCloser
+	prefix []byte // bytes already delivered through the caller's buffer (ReadObject*), copied at open time
+	want   []byte // what prefix+stream must deliver
+}
+
+// heldStreams opens streams for 1-3 stored addresses, performs other complete reads (of other and of the same
+// addresses, sequentially and from concurrent goroutines) while they are open and unread, and only then drains
+// them: a stream must deliver its object's bytes no matter what other reads happened in between.
+func (m *machine) heldStreams(t *rapid.T) {
+	var stored, big []int
+	for i := 0; i < universe; i++ {
+		if m.in[i] {
+			stored = append(stored, i)
+			if len(m.objs[i].Stored) >= fsobj.HeaderBufferLen {
+				big = append(big, i)
+			}
+		}
+	}
+	if len(stored) == 0 {
+		t.Skip("nothing stored")
+	}
+	nh := rapid.IntRange(1, 3).Draw(t, "held")
+	var hs []*held
+	for k := 0; k < nh; k++ {
+		pool := stored
+		if len(big) > 0 && rapid.IntRange(0, 3).Draw(t, "preferBig") != 0 {
+			pool = big // streams with a buffered prefix AND a file remainder exist only from 20 KiB on
+		}
+		i := rapid.SampledFrom(pool).Draw(t, "i")
+		api := rapid.SampledFrom([]string{"GetStream", "GetStream", "ReadObject", "ReadObjectParts"}).Draw(t, "api")
+		o := m.objs[i]
+		h := &held{i: i, api: api}
+		switch api {
+		case "GetStream":
+			hdr, rd, err := m.tree.GetStream(o.Addr)
+			if err != nil {
+				m.fail(t, "GetStream(#%d): %v", i, err)
+			}
+			if !bytes.Equal(hdr.Marshal(), o.Header) {
+				m.fail(t, "GetStream(#%d) header differs", i)
+			}
+			h.rd, h.want = rd, o.Object.Payload()
+		default:
+			buf := make([]byte, 2*fsobj.HeaderBufferLen) // the caller's own buffer: not shared with other reads
+			var n int
+			var rd io.ReadCloser
+			var err error
+			if api == "ReadObject" {
+				n, rd, err = m.tree.ReadObject(o.Addr, buf)
+			} else {
+				n, rd, err = m.tree.ReadObjectParts(buf, o.Addr, common.PayloadRange{}, nil)
+			}
+			if err != nil {
+				m.fail(t, "%s(#%d): %v", api, i, err)
+			}
+			h.rd, h.prefix, h.want = rd, append([]byte(nil), buf[:n]...), o.Plain
+		}
+		hs = append(hs, h)
+		m.log("Hold%s(#%d len=%d%s)", api, i, len(o.Stored), zmark(o))
+	}
+	closeAll := func() {
+		for _, h := range hs {
+			_ = h.rd.Close()
+		}
+	}
+	kinds := []string{"Head", "Head", "GetStream", "GetStream", "ReadHeader", "Get"}
+	nr := rapid.IntRange(1, 8).Draw(t, "otherReads")
+	for k := 0; k < nr; k++ {
+		if rapid.IntRange(0, 3).Draw(t, "concurrent") == 0 {
+			ng := rapid.IntRange(2, 4).Draw(t, "goroutines")
+			is := make([]int, ng)
+			ks := make([]string, ng)
+			for g := 0; g < ng; g++ {
+				is[g] = rapid.IntRange(0, universe-1).Draw(t, "ci")
+				ks[g] = rapid.SampledFrom(kinds).Draw(t, "ckind")
+			}
+			m.log("  concurrently while held: %v %v", ks, is)
+			errs := make([]error, ng)
+			var wg sync.WaitGroup
+			for g := 0; g < ng; g++ {
+				wg.Add(1)
+				go func() {
+					defer wg.Done()
+					errs[g] = m.quickRead(is[g], ks[g])
+				}()
+			}
+			wg.Wait()
+			for _, err := range errs {
+				if err != nil {
+					closeAll()
+					m.fail(t, "%v", err)
+				}
+			}
+			continue
+		}
+		i := rapid.IntRange(0, universe-1).Draw(t, "ri")
+		if rapid.IntRange(0, 2).Draw(t, "sameAddress") == 0 {
+			i = hs[rapid.IntRange(0, len(hs)-1).Draw(t, "which")].i
+		}
+		kind := rapid.SampledFrom(kinds).Draw(t, "rkind")
+		m.log("  while held: %s(#%d)", kind, i)
+		if err := m.quickRead(i, kind); err != nil {
+			closeAll()
+			m.fail(t, "%v", err)
+		}
+	}
+	for _, h := range hs {
+		rest, err := io.ReadAll(h.rd)
+		_ = h.rd.Close()
+		got := append(append([]byte(nil), h.prefix...), rest...)
+		if err != nil || !bytes.Equal(got, h.want) {
+			closeAll()
+			m.fail(t, "%s(#%d) stream drained after other reads delivers %d bytes that differ from the stored %d bytes (first diff at %d, err %v)",
+				h.api, h.i, len(got), len(h.want), firstDiff(got, h.want), err)
+		}
+	}
+	m.heldDone = true
+	m.log("  held streams drained OK")
+}
+
 func (m *machine) readOne(t *rapid.T) {
 	i := rapid.IntRange(0, universe-1).Draw(t, "i")
 	m.log("ReadAll(#%d)", i)
@@ -740,6 +922,7 @@ func TestC10Model(t *testing.T) {
 				"has-combined-file":                         m.sawCombined,
 				"has-compressed-read":                       m.sawCompressedRead,
 				"has-reopen":                                m.reopened,
+				"has-held-streams":                          m.heldDone,
 				"cnt-limit-1":                               cfg.cntLim == 1,
 			} {
 				if v {
@@ -762,6 +945,8 @@ func TestC10Model(t *testing.T) {
 			"putBatch2":      m.putBatch,
 			"concurrentPuts": m.concurrentPuts,
 			"aimedBatch":     m.aimedBatch,
+			"heldStreams":    m.heldStreams,
+			"heldStreams2":   m.heldStreams,
 			"delete":         m.del,
 			"delete2":        m.del,
 			"reopen":         m.reopen,
